@@ -20,7 +20,7 @@ RULE = ("case = (client kind, configuration {key_prefix, allow_unicode_keys, enc
         "biased to protocol text. Oracle: the connection is a strict memcached request parser; either the call raised "
         "MemcacheIllegalInputError and not a single byte was written (no sendall event), or the parser's command log "
         "equals the independently computed intended command list (verb, prefixed key, flags, exptime, length, data "
-        "block, cas, noreply) with zero parse errors and an empty pending buffer. Non-trivial: the key contains a "
+        "block, cas, noreply) with zero parse errors and an empty pending buffer. Call histories: every sequence of 2-3 calls (Hypothesis: up to 10) on ONE client object over a 15-instance alphabet in which the same tokens occur as keys and as arguments of `stats` / `cache_memlimit` (which are validated with an empty prefix), with three prefixes and all four client stacks - each call is judged like a single call. Non-trivial: the key contains a "
         "byte < 0x21, 0x7f or >= 0x80 or is at a length boundary, or the value contains CR LF, or an integer is at a "
         "range boundary or not an integer, or the call is multi-key with an illegal member.")
 MANIFEST = {
@@ -363,6 +363,86 @@ def serde_flag_cases(tier, seed):
                         yield {"kind": kind, "cfg": dict(BASE_CFG, serde=spec), "op": r}
 
 
+# ---- call histories on one object ----------------------------------------------------------------------------
+
+LONGTOK = "k" * 245
+HIST_ALPHA = [
+    {"op": "stats", "args": ["items"]}, {"op": "stats", "args": ["slabs"]}, {"op": "stats", "args": [b"items"]}, {"op": "stats", "args": [LONGTOK]},
+    {"op": "cache_memlimit", "memlimit": 64}, {"op": "get", "key": "items"}, {"op": "get", "key": b"items"},
+    {"op": "set", "key": "slabs", "value": PAYLOAD, "noreply": False}, {"op": "get", "key": "64"}, {"op": "set", "key": b"64", "value": b"1", "noreply": True},
+    {"op": "get", "key": LONGTOK}, {"op": "delete", "key": "items", "noreply": False}, {"op": "get_many", "keys": ["items", "64"]},
+    {"op": "incr", "key": "64", "delta": 1, "noreply": False}, {"op": "set_many", "values": {"slabs": b"v", LONGTOK: b"w"}, "noreply": False},
+]
+HIST_PREFIXES = [b"ns:", b"", b"0123456789"]
+
+
+def _usable(kind, r):
+    if kind == "pooled" and r["op"] == "cache_memlimit":
+        return False
+    if kind.startswith("hash") and r["op"] in ("cache_memlimit", "get_many", "set_many"):
+        return False
+    return True
+
+
+def check_history(case):
+    """every call of a sequence on ONE client object is judged like a single call: what a token was used for earlier
+    (a key, a `stats` argument, a memory limit) must not change how it is written now"""
+    kind, cfg = case["kind"], case["cfg"]
+    env = Env()
+    c = env.client(kind, **{k: cfg[k] for k in ("key_prefix", "allow_unicode_keys", "encoding", "default_noreply") if k in cfg})
+    srv = env.server
+    roles = {}
+    mixed = False
+    for i, r in enumerate(case["ops"]):
+        if not _usable(kind, r):
+            continue
+        lm, nm, em = len(srv.log), len(env.net.log), len(srv.errors)
+        try:
+            want = ops.intended(r, cfg)
+        except ops.CannotEncode:
+            want = None
+        res = env.call(ops.invoke, c, r)
+        sent = [e for e in env.net.log[nm:] if e[3] == "sendall" and e[4]]
+        desc = "call %d %r of history %r on one %s object, cfg=%r" % (i, _short(r), _short([o for o in case["ops"]]), kind, cfg)
+        for t in ([r["key"]] if "key" in r else []) + list(r.get("keys", ())) + list(r.get("values", {})) + list(r.get("args", ())) + ([str(r["memlimit"])] if "memlimit" in r else []):
+            tb = t.encode() if isinstance(t, str) else t
+            role = "arg" if r["op"] in ("stats", "cache_memlimit") else "key"
+            if roles.setdefault(tb, role) != role:
+                mixed = True
+        if res[0] == "exc" and isinstance(res[1], MemcacheIllegalInputError):
+            if sent:
+                raise Violation(["history", "sent-then-rejected", r["op"]], "input error raised after bytes were written (server parsed %r): %s" % (srv.log[lm:], desc))
+            legal = want is not None and all(len(k) <= 250 for w in want for k in ([w["key"]] if "key" in w else w.get("keys", []) + w.get("args", [])))
+            if legal:
+                raise Violation(["history", "legal-rejected", r["op"]], "a legal call was rejected with %r: %s" % (res[1], desc))
+            continue
+        if res[0] == "exc" and not isinstance(res[1], MemcacheError):
+            raise Violation(["history", "unexpected-exception", type(res[1]).__name__, r["op"]], "raised %r: %s" % (res[1], desc))
+        errs = [e for e in srv.errors[em:] if not (r["op"] == "stats" and "unknown stats argument" in str(e))]
+        if want is None or errs or srv.log[lm:] != want:
+            raise Violation(["history", "malformed-or-injected", r["op"]], "server parsed %r, errors %r; intended %r: %s" % (_short(srv.log[lm:]), errs[:3], _short(want), desc))
+    return mixed, [kind, "len=%d" % len(case["ops"])] + (["token-in-two-roles"] if mixed else [])
+
+
+def history_cases(tier, seed):
+    depth = 3
+    for kind in ("client", "pooled", "hash", "hash-pooled"):
+        for prefix in HIST_PREFIXES:
+            cfg = dict(BASE_CFG, key_prefix=prefix)
+            for n in range(2, depth + 1):
+                for idx in itertools.product(range(len(HIST_ALPHA)), repeat=n):
+                    if n == 3 and tier == "quick" and kind != "client" and (sum(idx) + len(prefix)) % 3:
+                        continue
+                    yield {"kind": kind, "cfg": cfg, "ops": [HIST_ALPHA[i] for i in idx]}
+
+
+def history_strategy(tier):
+    cfg = st.fixed_dictionaries({"key_prefix": st.sampled_from(HIST_PREFIXES + ["str:"]), "allow_unicode_keys": st.booleans(),
+                                 "encoding": st.sampled_from(["ascii", "utf-8"]), "default_noreply": st.booleans()})
+    return st.fixed_dictionaries({"kind": st.sampled_from(["client", "pooled", "hash", "hash-pooled"]), "cfg": cfg,
+                                  "ops": st.lists(st.sampled_from(HIST_ALPHA), min_size=2, max_size=10)})
+
+
 def random_strategy(tier):
     tricky = st.sampled_from([b"\r\n", b"END\r\n", b"VALUE k 0 1\r\n", b"set x 0 0 1\r\n", b"flush_all\r\n", b" noreply", b"\x00", b" ", b"STORED\r\n"])
     value = st.one_of(st.binary(max_size=64),
@@ -422,6 +502,9 @@ PARTS = [
     Part("integers-and-values", "enum", check, cases=integer_cases, exhaustive=True),
     Part("serde-and-flags", "enum", check, cases=serde_flag_cases, exhaustive=True),
     Part("bytes-like-payloads", "enum", check, cases=view_serde_cases, exhaustive=True),
+    Part("call-histories", "enum", check_history, cases=history_cases, exhaustive=True),
+    Part("random-call-histories", "hyp", check_history, strategy=history_strategy,
+         examples={"quick": 200, "thorough": 8000}, shards={"quick": 4, "thorough": 16}),
     Part("random", "hyp", check, strategy=random_strategy,
          examples={"quick": 600, "thorough": 25000}, shards={"quick": 4, "thorough": 16}),
 ]
